@@ -137,6 +137,8 @@ ENTRY_POOL = [
     {"ep": "direct", "kind": "vpassive", "dt": "bytes"},
     {"ep": "direct", "kind": "vactive", "dt": "bytearray"},
     {"ep": "direct", "kind": "passive", "dt": "bytes", "consume": "first"},
+    {"ep": "direct", "kind": "passive", "dt": "reused"},
+    {"ep": "direct", "kind": "vactive", "dt": "reused"},
     {"ep": "direct", "kind": "active", "dt": "message", "consume": "first"},
     {"ep": "text", "kind": "passive"},
     {"ep": "text", "kind": "vpassive"},
